@@ -821,3 +821,43 @@ def run(ctx):
         "Bark-scaled banks are exercised by the oracle only (not by the certified comparison)",
     ]
     return C.finish(ctx, "proof")
+
+
+def replay(ctx, rp):
+    """./check C07 --replay <file>: re-run the recorded case on the implementation."""
+    C.ensure_impl_path()
+    import importlib
+
+    import numpy as np
+
+    F = importlib.import_module("pydrobert.speech.filters")
+    config = importlib.import_module("pydrobert.speech.config")
+    eps = float(config.EFFECTIVE_SUPPORT_THRESHOLD)
+    f = rp.get("failure", {}).get("replay", {})
+    case = f.get("case", f)
+    cfg = case.get("config")
+    if not cfg:
+        print(json.dumps(rp.get("failure"), indent=1, default=str))
+        print("no concrete input recorded (proof / tie failure)")
+        return 1
+    bank = try_build(F, cfg)
+    if bank is None:
+        print("configuration is not constructible any more: %r" % (cfg,))
+        return 1
+    fi = case.get("filt_idx", 0)
+    print("config", cfg, "filter", fi)
+    print("supports", bank.supports[fi], "supports_hz", bank.supports_hz[fi], "is_real", bank.is_real)
+    bad_shape = [b_ for b_ in support_shape(bank, cfg) if b_[1] == fi]
+    for b_ in bad_shape:
+        print("VIOLATED", b_)
+    ws = [case["width"]] if case.get("width") else widths_for(ctx.rng, bank, fi, 12000)[0]
+    rc = 1 if bad_shape else 0
+    for W in ws:
+        bad, meas = oracle(np, bank, fi, W, eps)
+        print("width", W, "measures (x threshold)", {k: round(v, 4) for k, v in meas.items() if k in ("idft", "time", "freq")})
+        for clause, measured, bound in bad:
+            print("VIOLATED", clause, measured, "bound", bound)
+            rc = 1
+    if "observe" in case:
+        print("recorded observation:", case.get("observe"), case.get("value"))
+    return rc
